@@ -366,7 +366,11 @@ class Relayout:
                 is_out_call = isinstance(s, ast.Expr) and isinstance(s.value, ast.Call) and (
                     any(k.arg == "out" for k in s.value.keywords)
                     or (isinstance(s.value.func, ast.Attribute) and s.value.func.attr == "copyto"))
-                simple = (isinstance(s, (ast.Assign, ast.AnnAssign)) or is_out_call) and _is_movement(s, self.np_names) \
+                # (and `for` loops over constants whose whole body is data movement: block-by-block re-layout)
+                is_move_loop = isinstance(s, ast.For) and not s.orelse and all(
+                    isinstance(b_, (ast.Assign, ast.AnnAssign)) or (isinstance(b_, ast.Expr) and isinstance(b_.value, ast.Call))
+                    for b_ in s.body)
+                simple = (isinstance(s, (ast.Assign, ast.AnnAssign)) or is_out_call or is_move_loop) and _is_movement(s, self.np_names) \
                     and not (_loads(s) & self.poisoned)
                 if simple:
                     it.exec(s, env)
